@@ -63,7 +63,7 @@ Definition of_fcase (f : fcase_t) : case_t :=
 
 Definition model_run (c : case_t) : result pworld :=
   let tb := pulse_table (c_cfg c) (c_oracle c) (c_orders c) in
-  if c_sync c then sync_run tb 4000 4000 [] [] else stoch_run tb 4000 4000 [] [] [].
+  if c_sync c then sync_run tb 300 300 [] [] else stoch_run tb 300 300 [] [] [].
 
 Definition queries_of (o : list obs) : list (nat * option Q) :=
   flat_map (fun x => match x with OQuery i r => [(i, r)] | _ => [] end) o.
